@@ -606,6 +606,36 @@ Example C15_delimiter_in_urls_roundtrip :
   restore (persist s) = s /\ length (sE s) = 6%nat.
 Proof. vm_compute. split; reflexivity. Qed.
 
+(* the variant that reads the entry name back with an unbounded split
+   (seeded change C15-12: strings.Split, parts[0] / parts[1]) cuts a URL at the
+   first ":::" it contains: "a:::b" (2 records) and "a:::c" (3 records) both
+   come back as "a" — 5 requests before the restart, 3 after it (the list order
+   of the model makes the later entry the survivor; Go's map order in the code) *)
+Theorem C15_totals_survive_restart_unbounded_split_refuted :
+  ~ C15_totals_survive_restart_with pkey rkey_all.
+Proof.
+  intros F.
+  assert (O : batches_ok delim_in_urls) by (vm_compute; repeat constructor; discriminate).
+  destruct (F delim_in_urls O) as (A & _).
+  vm_compute in A. discriminate A.
+Qed.
+Print Assumptions C15_totals_survive_restart_unbounded_split_refuted.
+
+(* Non-vacuity: the history is a reachable state holding the two URLs as two
+   endpoints; the code's reader brings back both and all 5 requests; the
+   variant's reader agrees with the code's on names whose URL has no ":::" . *)
+Example C15_delimiter_in_urls_history :
+  map fst (sE (run delim_in_urls)) = [(mc_GET, dl_ab); (mc_GET, dl_ac)] /\
+  map (fun e => a_count (snd e)) (sE (run delim_in_urls)) = [2; 3] /\
+  restore (persist (run delim_in_urls)) = fl_state (run delim_in_urls) /\
+  count_where everywhere (sE (restore (persist (run delim_in_urls)))) = 5 /\
+  rkey_all (pkey (mc_GET, dl_ab)) = (mc_GET, [97]) /\
+  rkey_all (pkey (mc_GET, dl_ac)) = (mc_GET, [97]) /\
+  map fst (sE (restore_with rkey_all (persist_with pkey (run delim_in_urls)))) = [(mc_GET, [97])] /\
+  count_where everywhere (sE (restore_with rkey_all (persist_with pkey (run delim_in_urls)))) = 3 /\
+  restore_with rkey_all (persist_with pkey (run mixed_case)) = restore (persist (run mixed_case)).
+Proof. vm_compute. repeat split; reflexivity. Qed.
+
 (* ====================================================================== *)
 (* 8. Keys that are not valid UTF-8 (Utf8.v, Entry.v).
 
@@ -978,9 +1008,43 @@ Proof. vm_compute. split; reflexivity. Qed.
    monitor's classifier separates a flush that grouped before the tree had
    been given the whole batch and is not settled (signature
    batch-dependence:flush-grouped-before-tree-settled) from F-C15. *)
+(* READ THIS WITH THE STATEMENT.  The three premises about the tree ([stable]:
+   a URL just inserted is held / stays held / re-inserting it returns the same
+   tree) are hypotheses INSIDE [C15_grouping_settled_with]; they are discharged
+   for the toy tree of Settle.v only ([C15_toy_tree_flushes]).  The real
+   urltree is not modelled and the premises are not verified for it (props
+   `assumptions`).  The statement quantifies over every [olds]; for the real
+   tree the case [olds <> []] (a flush with a re-keying pass) is the one where
+   the conclusion is observed to FAIL (about 2 flushes in 10 000), so there a
+   premise is false for the real tree ([C15_tree_that_moves_on_reinsert_is_not_settled]
+   shows what a failing third premise does).  What suite "settle" demands of
+   the code is the case [olds = []]: [C15_grouping_settled_without_rekeying].
+   No suite evaluates [flush_tree] / [settled]; the suite compares the number
+   of leading inserts ([pre_normalised]) and an observed count of unsettled
+   look-ups. *)
 Theorem C15_grouping_settled : C15_grouping_settled_with false.
 Proof. exact grouping_settled_head. Qed.
 Print Assumptions C15_grouping_settled.
+
+(* The case the suite matches: a flush without a re-keying pass. *)
+Theorem C15_grouping_settled_without_rekeying : C15_grouping_settled_no_rekeying_with false.
+Proof.
+  intros tree insert lookup stable H1 H2 H3 e t urls urlsC Hincl.
+  exact (C15_grouping_settled tree insert lookup stable H1 H2 H3 e t [] urls urlsC Hincl).
+Qed.
+Print Assumptions C15_grouping_settled_without_rekeying.
+
+(* the seeded variant is refuted in that case already (the witness has no
+   re-keying pass) *)
+Theorem C15_grouping_settled_without_rekeying_skip_on_empty_refuted :
+  ~ C15_grouping_settled_no_rekeying_with true.
+Proof.
+  intros H.
+  specialize (H toy toy_insert toy_lookup toy_stable toy_stable_insert toy_stable_mono
+                toy_stable_noop true [] toy_urls toy_urls (incl_refl _)).
+  vm_compute in H. destruct H as [ H _ ]. discriminate H.
+Qed.
+Print Assumptions C15_grouping_settled_without_rekeying_skip_on_empty_refuted.
 
 (* The seeded variant "the convergence step is skipped while nothing has been
    aggregated yet" groups the first batch by a tree that converges in the middle
@@ -1018,6 +1082,28 @@ Proof.
   split; apply toy_flushes.
 Qed.
 
+(* The third premise is needed, also without a re-keying pass: a tree that
+   remembers every insert (also of a URL it has) and whose look-up depends on
+   the number of inserts meets the first two premises, not the third, and one
+   flush of ONE URL on it is not settled (grouped as "1" by endpoint; the tree
+   answers the parameter for it when the flush ends). *)
+Example C15_tree_that_moves_on_reinsert_is_not_settled :
+  (forall t u, bump_stable (bump_insert t u) u) /\
+  (forall t u v, bump_stable t u -> bump_stable (bump_insert t v) u) /\
+  ~ (forall t u, bump_stable t u -> bump_insert t u = t) /\
+  flush_tree toy bump_insert toy_lookup false true [] [] [[49]] [[49]]
+    = ([[49]; [49]; [49]], [[49]], [toy_param]) /\
+  ~ settled toy toy_lookup [[49]] [[49]]
+      (flush_tree toy bump_insert toy_lookup false true [] [] [[49]] [[49]]).
+Proof.
+  unfold bump_stable, bump_insert.
+  split; [ intros t u; apply in_or_app; right; left; reflexivity | ].
+  split; [ intros t u v Hs; apply in_or_app; left; exact Hs | ].
+  split; [ intros H; specialize (H [[49]] [49] (or_introl eq_refl)); cbn in H; discriminate H | ].
+  split; [ reflexivity | ].
+  vm_compute. intros [ H _ ]. discriminate H.
+Qed.
+
 (* Status codes are used as logged: a record with HAProxy's placeholder -1 (or
    0, 99, 600, 999) is counted under that value like any other, so the request
    count of an endpoint is the sum of its status counts for such records too
@@ -1033,3 +1119,42 @@ Example C15_non_http_status_values_are_counted :
     = [(200, 1); (-1, 2); (0, 1); (999, 1); (600, 1); (99, 1)] /\
   map (fun z => zst (Uint63.of_Z z)) [200; 0; 999; 2305843009213693953] = [200; 0; 999; -1].
 Proof. vm_compute. repeat split. Qed.
+
+(* "request count = sum of the status counts, and every status value is
+   accounted for" for the pipeline followed by [post] (the identity = the code) *)
+Definition C15_count_is_status_sum_with (post : state -> state) : Prop :=
+  forall bs, batches_ok bs ->
+    let s := post (run bs) in
+    (forall k, cnt_of (mfind key_eqb k (sE s))
+               = sum_where (fun ks => key_eqb (fst ks) k) (sES s)) /\
+    (forall st, sum_where (fun ks => snd ks =? st) (sES s)
+                = nrec bs (fun r => r_status r =? st)).
+
+Theorem C15_count_is_status_sum : C15_count_is_status_sum_with (fun s => s).
+Proof.
+  intros bs H. cbn zeta.
+  destruct (C15_conservation bs H) as (_ & _ & A & B & _). split; [ exact A | exact B ].
+Qed.
+Print Assumptions C15_count_is_status_sum.
+
+(* the variant that leaves status values outside 100..599 out of the status
+   counts (seeded change C15-10; [drop_non_http], Keys.v): 7 requests, status
+   counts adding up to 1 *)
+Theorem C15_count_is_status_sum_non_http_left_out_refuted :
+  ~ C15_count_is_status_sum_with drop_non_http.
+Proof.
+  intros F.
+  assert (O : batches_ok odd_statuses) by (vm_compute; repeat constructor; discriminate).
+  destruct (F odd_statuses O) as (A & _).
+  specialize (A ([71], [104])). vm_compute in A. discriminate A.
+Qed.
+Print Assumptions C15_count_is_status_sum_non_http_left_out_refuted.
+
+Example C15_odd_statuses_history :
+  map (fun e => a_count (snd e)) (sE (run odd_statuses)) = [7] /\
+  map (fun e => (snd (fst e), snd e)) (sES (run odd_statuses))
+    = [(200, 1); (-1, 2); (0, 1); (999, 1); (600, 1); (99, 1)] /\
+  map (fun e => a_count (snd e)) (sE (drop_non_http (run odd_statuses))) = [7] /\
+  map (fun e => (snd (fst e), snd e)) (sES (drop_non_http (run odd_statuses))) = [(200, 1)] /\
+  drop_non_http (run demo) = run demo.
+Proof. vm_compute. repeat split; reflexivity. Qed.
